@@ -60,9 +60,10 @@ def model(c):
     parallel(jobs, max_workers=3)
 
 
-def validate(c, path, name):
+def validate(c, path, name, gone=False):
+    """gone: also enforce (d) of LeaseTrace.tla - the record is gone once the holder's Unlock returned (property C04)."""
     blocks = lk.split_blocks(path)
-    cfg = c.write_cfg("lock", "LeaseTrace", constants={"Slack": SLACK_US}, postcondition="Accepted")
+    cfg = c.write_cfg("lock", "LeaseTrace" + ("_gone" if gone else ""), constants={"Slack": SLACK_US, "CheckGone": gone}, postcondition="Accepted")
     part = blocks
     for attempt in range(10):
         if not part:
@@ -77,7 +78,7 @@ def validate(c, path, name):
         acc = 0
         for bi, b in enumerate(part):
             if acc + len(b) >= at:
-                report(c, b, at - acc)
+                report(c, b, at - acc, gone)
                 part = part[:bi] + part[bi + 1:]
                 break
             acc += len(b)
@@ -86,7 +87,7 @@ def validate(c, path, name):
         c.samples.append({"kind": "timed lease history (%s) validated by LeaseTrace.tla" % name, "events": blocks[0][:16]})
 
 
-def report(c, block, idx):
+def report(c, block, idx, gone=False):
     ev = json.loads(block[idx - 1])
     head = json.loads(block[0])
     replylost = any('"res":"replylost"' in ln for ln in block[:idx])
@@ -104,7 +105,7 @@ def report(c, block, idx):
     if replylost:
         sig = "lease: the record of a live holder expired after the REPLY of a renewal was lost (the holder cannot learn the new version)"
     c.report_failure(sig, {"scenario": head, "rejected_event": ev, "history": block[:idx + 1],
-                           "trace": {"comp": "lock", "module": "LeaseTrace", "constants": {"Slack": SLACK_US}}})
+                           "trace": {"comp": "lock", "module": "LeaseTrace", "constants": {"Slack": SLACK_US, "CheckGone": gone}}})
 
 
 def selftest(c, path):
@@ -118,7 +119,7 @@ def selftest(c, path):
                 b2[i] = json.dumps(e, separators=(",", ":"))
                 p = c.path("trace", "lease-selftest.ndjson")
                 open(p, "w").write("\n".join(b2) + "\n")
-                cfg = c.write_cfg("lock", "LeaseTrace", constants={"Slack": SLACK_US}, postcondition="Accepted")
+                cfg = c.write_cfg("lock", "LeaseTrace", constants={"Slack": SLACK_US, "CheckGone": False}, postcondition="Accepted")
                 ok, at, _ = c.validate_trace("lock", "LeaseTrace", cfg, p, label="selftest")
                 c.selftest = {"ran": True, "corrupted_line": i + 1, "rejected_at_line": at, "detected": (not ok) and at == i + 1}
                 if ok or at != i + 1:
